@@ -290,7 +290,8 @@ pub fn get_best_move(
                 // if we have not found a move to send back, send back the best move as determined by the order_heuristic
                 // this can happen on very short time control situations
                 if best_move.is_none() {
-                    tx.send(moves[0].clone()).unwrap();
+                    // the receiver may already be gone, nothing to do then
+                    let _ = tx.send(moves[0].clone());
                 }
                 return;
             }
@@ -315,7 +316,10 @@ pub fn get_best_move(
                 //alpha raised, remember this line as the pv
                 alpha = evaluation;
                 best_move = Some(mov.clone());
-                tx.send(mov.clone()).unwrap();
+                if tx.send(mov.clone()).is_err() {
+                    // nobody is listening any more, stop searching
+                    return;
+                }
                 search_info.set_principle_variation();
                 send_search_info(&search_info, cur_depth, evaluation, start);
             }
